@@ -713,7 +713,8 @@ def _work(job):
 # --------------------------------------------------------------------------- generators
 
 GRID_FULL = {"k": (0, 1, 2, 3, 4), "l": (0, 1, 2, 3, 4), "c": (0, 1, 2)}
-GRID_SMALL = {"k": (1, 2, 3), "l": (0, 1, 2), "c": (0, 1)}
+GRID_SMALL = {"k": (0, 1, 2, 3), "l": (0, 1, 2), "c": (0, 1)}
+GRID_TINY_3 = {"k": (1, 2), "l": (2,), "c": (0, 1)}
 GRID_TINY = {"k": (0, 1, 2), "l": (0, 2), "c": (0, 1)}
 GRID_TINY_Q = {"k": (1, 2), "l": (0, 2), "c": (0, 1)}
 GRID_TINY_Z = {"k": (0, 2), "l": (2,), "c": (0, 1)}
@@ -1313,13 +1314,17 @@ def run(ctx):
                      "EXHAUSTIVE: two consecutive steps of A' from every mixture / particle set layout with 0 components (linear 2, circular 0..1, Euler/quaternion), "
                      "resize targets with components {0, 2}", enum_depth(GRID_TINY_Z, 2, noise=(0,), full=False, lay_k=(0,)), True))
     else:
-        sets.append(("depth2-full-grid",
-                     "EXHAUSTIVE: two consecutive steps of the full alphabet A (a fill between them) for every class and every layout of the property's grid, initial noise 0",
-                     enum_depth(GRID_FULL, 2, noise=(0,), full=True), True))
+        sets.append(("depth2-small-grid",
+                     "EXHAUSTIVE: two consecutive steps of the full alphabet A (a fill between them) for every class; layouts and resize targets: components 0..3, "
+                     "linear 0..2, circular 0..1, Euler/quaternion, initial noise 0 (round 4: the alphabet doubled, the grid was reduced from the property's full grid)",
+                     enum_depth(GRID_SMALL, 2, noise=(0,), full=True), True))
+        sets.append(("depth2-tiny-grid-noise",
+                     "EXHAUSTIVE: two consecutive steps of A' from the tiny grid (components 0..2, linear {0, 2}, circular 0..1) with initial noise 1",
+                     enum_depth(GRID_TINY, 2, noise=(1,), full=False), True))
         sets.append(("depth3-tiny-grid",
-                     "EXHAUSTIVE: three consecutive steps of A' (fills between them); layouts and resize targets restricted to components 0..2, linear {0, 2}, "
+                     "EXHAUSTIVE: three consecutive steps of A' (fills between them); layouts and resize targets restricted to components 1..2, linear 2, "
                      "circular 0..1, Euler/quaternion, all classes, initial noise 0",
-                     enum_depth(GRID_TINY, 3, noise=(0,), full=False), True))
+                     enum_depth(GRID_TINY_3, 3, noise=(0,), full=False), True))
     g = ctx.gen("random")
     nrand = ctx.n(2500, 60000)
     rnd = [gen_random(g, 12) for _ in range(nrand)]
